@@ -1,6 +1,7 @@
 import ScnrVerif.Proofs.Equiv
 import ScnrVerif.Proofs.CompileCorrect
 import ScnrVerif.Proofs.Agree
+import ScnrVerif.Proofs.FullRegistry
 /-!
 # C02 — the compiled automaton accepts exactly the pattern languages, for every string
 
@@ -154,5 +155,43 @@ example : acceptsTid (compileMode [(0, .concat [.leaf 0, .leaf 1]), (1, .plus (.
   show Matches _ (.cat (.cls 0) (.star (.cls 0))) [97, 97]
   exact (Matches.cat (u := [97]) (v := [97]) (.cls (by decide))
     ((List.append_nil [97]) ▸ Matches.starCons (u := [97]) (v := []) (.cls (by decide)) .starNil))
+
+
+/-! ## The class registry (E8): "every character class an automaton refers to is a registered one"
+
+`Model/Registry.lean` mirrors `CharacterClassRegistry::add_character_class` and the order in which the
+compiler registers the leaves of the pattern ASTs. For **every** scanner configuration: -/
+
+/-- ids handed out are registered, the registry stays duplicate-free and only grows, and under the
+    class function of any later registry the AST with ids denotes the language of the AST with keys -/
+theorem class_ids_assigned_are_registered (a : CAst) (R : List Nat) (hR : R.Nodup) :
+    R <+: (assign a R).2 ∧ (assign a R).2.Nodup ∧
+    (assign a R).1.idsBelow (assign a R).2.length = true ∧
+    ∀ R', (assign a R).2 <+: R' → ∀ sem : Nat → Nat → Bool,
+      SameLang (regCm R' sem) sem (assign a R).1.toRe a.toRe :=
+  assign_spec a R hR
+
+/-- every compiled mode of a scanner accepts, under the class function of the scanner's registry,
+    exactly the languages of its patterns read with the sets their class keys denote -/
+theorem class_registry_faithful (ms : List (List CPat)) (sem : Nat → Nat → Bool) (i : Nat) (ps : List CPat)
+    (h : ms[i]? = some ps) :
+    ∃ ps', (assignModes ms []).1[i]? = some ps' ∧ (ps'.map (·.tid)) = (ps.map (·.tid)) ∧
+      (∀ w t, acceptsTid (compileFull ps').dfa (regCm (assignModes ms []).2 sem) w t ↔
+        w ≠ [] ∧ ∃ q ∈ ps, q.tid = t ∧ Matches sem q.ast.toRe w) ∧
+      (∀ i0 w k, PCand (regCm (assignModes ms []).2 sem) ps' i0 w k ↔ PCand sem ps i0 w k) :=
+  registry_mode_correct ms sem i ps h
+
+/-- registry + compiler + finder: from pattern ASTs with class keys to the trailing-context rule -/
+theorem whole_pipeline_from_class_keys (ms : List CMode) (hn : ∀ md ∈ ms, (md.pats.map (·.tid)).Nodup)
+    (sem : Nat → Nat → Bool) (m : Nat) (w : List Nat) :
+    match ms[m]? with
+    | none => modelFinder (compileScanner (assignScanner ms).1) (regCm (assignScanner ms).2 sem) m w = none
+    | some md => PFindOK sem md.pats w
+        (modelFinder (compileScanner (assignScanner ms).1) (regCm (assignScanner ms).2 sem) m w) :=
+  whole_scanner_from_keys ms hn sem m w
+
+/-- two leaves with one key share an id, leaves with different keys get different ids -/
+example : (assignList [.leaf 7, .leaf 3, .leaf 7, .star (.leaf 9)] []) =
+    ([.leaf 0, .leaf 1, .leaf 0, .star (.leaf 2)], [7, 3, 9]) := by rfl
 
 end Scnr.C02
